@@ -37,6 +37,8 @@ def corpus(tier, seed):
         # prior_sampling: the result is the sorted initial live set, finalised at once
         std_spec("gauss2", s + 27, 50, prior_sampling=True),
         std_spec("nonuni2", s + 28, 20, prior_sampling=True, resume_after_done=1),
+        std_spec("rect2", s + 29, 50, reparameterisations={"c": "rescaletobounds"}, kills=[200]),
+        std_spec("disc2", s + 30, 25, max_iteration=100),
     ]
     if tier == "thorough":
         k = 11
@@ -63,6 +65,8 @@ def ins_corpus(tier, seed):
         ins_spec("offhigh2", s + 8, 100, max_iteration=3),        # ln Z ~ +700
         ins_spec("uprior2", s + 9, 100, max_iteration=4),         # prior not uniform in the unit hypercube
         ins_spec("offvlow2", s + 10, 100, max_iteration=3),       # ln L ~ -2e4: exp(ln Z) underflows long double
+        ins_spec("rect2", s + 11, 100, max_iteration=4),          # different bounds per parameter, names not sorted
+        ins_spec("disc2", s + 12, 100, max_iteration=3, kills=[300]),   # prior -inf inside the unit hypercube
     ]
     if tier == "thorough":
         k = 6
